@@ -14,11 +14,14 @@ history of (request, reply) pairs the reconcile had seen when it issued the requ
 
 TRACE theorems (`trace_*`): about every configuration reachable in the interleaved
 system `Sys` (any number of reconciles of the six controllers in flight, each taking
-its next API call with any fault outcome, interleaved with user deletions, garbage
-collection steps, third-party finalizer removals and process crashes): at the moment
-a controller's teardown write is applied, the state-based ordering constraint holds.
+its next API call with any fault outcome, each read answered by the API server or by an
+informer cache that lags behind by any number of steps, interleaved with user
+deletions, third-party edits of claims / XRs / Usages, garbage collection steps,
+third-party finalizer removals and process crashes): at the moment a controller's
+teardown write is applied, the state-based ordering constraint holds.
 The alphabet contains the deletion branches only (no creation of objects, see
-props/C08.json for what that leaves out).
+props/C08.json for what that leaves out); `WF st0` says that the resourceVersions of the
+initial store were issued before the next one.
 -/
 namespace Xp.C08
 open Xp.Gen
@@ -32,11 +35,13 @@ theorem every_path_guarded (c : Ctl) (n : String) : Always (guardH c n) [] (prog
 
 /-- The claim finalizer is removed only in a reconcile that read the claim and then read
 its XR as NotFound (or the claim references none), or — policy not Foreground — had its
-Delete(XR) acknowledged. With Foreground only the NotFound read counts. -/
+Delete(XR) acknowledged. With Foreground only the NotFound read counts. The removal is
+issued under the resourceVersion of the claim as read (`rv = cm.rv`): if anybody edited
+the claim since, it is rejected (`stale_write_not_applied`). -/
 theorem claim_fin_after_xr (sm : Sem St Req Resp) (plan : Plan) (s : St) (n : String)
     (h : Hist) (k : Key) (rv : Nat)
     (hi : (h, Req.removeFin k rv c08ClaimFinalizer) ∈ issued sm plan 0 [] (claimRec n) s) :
-    ∃ cm, (Req.get ⟨.claim, n⟩, Resp.obj cm) ∈ h ∧
+    ∃ cm, (Req.get ⟨.claim, n⟩, Resp.obj cm) ∈ h ∧ rv = cm.rv ∧
       (cm.ref = "" ∨ (Req.get ⟨.xr, cm.ref⟩, Resp.notFound) ∈ h ∨
         (cm.flag = false ∧ ((Req.delete ⟨.xr, cm.ref⟩ false, Resp.ok) ∈ h ∨
                             (Req.delete ⟨.xr, cm.ref⟩ false, Resp.notFound) ∈ h))) :=
@@ -111,14 +116,22 @@ theorem rev_deletion_ignores_spec (n : String) (pr : Obj) (a b : Bool) :
   ⟨_, rfl, rfl⟩
 
 /-- A Usage that is part of a composition (carries the composite label and names a using
-resource) removes its finalizer only in a reconcile that read the using resource as
-NotFound. -/
+resource) removes its finalizer only in a reconcile that read the using resource — the
+object of exactly the API group, kind and name `spec.by` gives — as NotFound, and under
+the resourceVersion of the Usage as read. -/
 theorem usage_waits_using (sm : Sem St Req Resp) (plan : Plan) (s : St) (n : String)
     (h : Hist) (k : Key) (rv : Nat)
     (hi : (h, Req.removeFin k rv c08UsageFinalizer) ∈ issued sm plan 0 [] (usageRec n) s) :
-    ∃ u, (Req.get ⟨.usage, n⟩, Resp.obj u) ∈ h ∧
-      (u.ref = "" ∨ u.flag = false ∨ (Req.get ⟨.res, u.ref⟩, Resp.notFound) ∈ h) :=
+    ∃ u, (Req.get ⟨.usage, n⟩, Resp.obj u) ∈ h ∧ rv = u.rv ∧
+      (u.ref = "" ∨ u.flag = false ∨ (Req.get ⟨u.refKind, u.ref⟩, Resp.notFound) ∈ h) :=
   (always_issued sm plan _ 0 [] _ s (always_usageRec n) _ hi rfl).2
+
+/-- A write that carries the resourceVersion of a copy read earlier (finalizer removal,
+status update, Lock update, label removal) is not applied when the stored object has
+another resourceVersion: the store is unchanged and the reply is Conflict. -/
+theorem stale_write_not_applied (s : St) (k : Key) (rv : Nat) (f : Obj → Obj) (o : Obj)
+    (ho : find s k = some o) (hrv : o.rv ≠ rv) : withObj s k rv f = (s, .conflict) := by
+  simp [withObj, ho, hrv]
 
 /-! ## trace theorems: every interleaving -/
 
@@ -128,42 +141,53 @@ Xp.Model.C08). -/
 
 /-- General form: in every reachable configuration the next request of every in-flight
 reconcile satisfies `safeReq` in the current store. -/
-theorem trace_order (st0 : St) (acts : List Act) (hn : NoCreate acts) (t : Thread) (r : Req) (k : Resp → P)
+theorem trace_order (st0 : St) (hw : WF st0) (acts : List Act) (hn : NoCreate acts) (t : Thread) (r : Req) (k : Resp → P)
     (ht : t ∈ (reach st0 acts).ths) (hp : t.prog = .call r k) :
     safeReq (reach st0 acts).st t.ctl t.name r = true :=
-  safe_reachable st0 acts hn t r k ht hp
+  safe_reachable st0 hw acts hn t r k ht hp
 
-/-- When a claim reconcile is about to remove the claim finalizer, the XR the stored claim
-references is gone, or — policy not Foreground — is already being deleted. -/
-theorem trace_claim_fin_after_xr (st0 : St) (acts : List Act) (hn : NoCreate acts) (t : Thread) (kk : Key) (rv : Nat) (k : Resp → P)
+/-- What a lagging informer cache can show: every store in `past` of a reachable
+configuration is an earlier store of the same run, i.e. the current store is a teardown
+successor of it (nothing was created, no deletionTimestamp unset, no controller started,
+the Lock only lost packages since). This is why a decision taken on a stale read is still
+right when the write it licenses is applied. -/
+theorem lagged_reads_show_earlier_stores (st0 : St) (hw : WF st0) (acts : List Act) (hn : NoCreate acts) :
+    ∀ p ∈ (reach st0 acts).past, Le p (reach st0 acts).st :=
+  past_le_reachable st0 hw acts hn
+
+/-- When a claim reconcile is about to remove the claim finalizer and the removal will be
+applied (the stored claim still has the resourceVersion the request carries), the XR the
+stored claim references — by its CURRENT `spec.resourceRef`, under its CURRENT delete
+policy — is gone, or — policy not Foreground — is already being deleted. -/
+theorem trace_claim_fin_after_xr (st0 : St) (hw : WF st0) (acts : List Act) (hn : NoCreate acts) (t : Thread) (kk : Key) (rv : Nat) (k : Resp → P)
     (ht : t ∈ (reach st0 acts).ths) (hc : t.ctl = .claim)
     (hp : t.prog = .call (.removeFin kk rv c08ClaimFinalizer) k)
-    (cm : Obj) (hcm : find (reach st0 acts).st kk = some cm) (href : cm.ref ≠ "")
+    (cm : Obj) (hcm : find (reach st0 acts).st kk = some cm) (hrv : cm.rv = rv) (href : cm.ref ≠ "")
     (x : Obj) (hx : find (reach st0 acts).st ⟨.xr, cm.ref⟩ = some x) :
     x.del = true ∧ cm.flag = false := by
-  have := trace_order st0 acts hn t _ k ht hp
+  have := trace_order st0 hw acts hn t _ k ht hp
   rw [hc] at this
   simp only [safeReq, hcm, claimXRGone, hx] at this
-  simpa [href] using this
+  simpa [href, hrv] using this
 
 /-- When the definition reconcile of XRD `n` is about to delete a CRD, no XR exists and
 the composite controller of `n` is not running. -/
-theorem trace_crd_after_instances_and_stop (st0 : St) (acts : List Act) (hn : NoCreate acts) (t : Thread) (crd : String) (fg : Bool) (k : Resp → P)
+theorem trace_crd_after_instances_and_stop (st0 : St) (hw : WF st0) (acts : List Act) (hn : NoCreate acts) (t : Thread) (crd : String) (fg : Bool) (k : Resp → P)
     (ht : t ∈ (reach st0 acts).ths) (hc : t.ctl = .defined)
     (hp : t.prog = .call (.delete ⟨.crd, crd⟩ fg) k) :
     (∀ o ∈ (reach st0 acts).st.objs, o.key.kind ≠ .xr) ∧ compositeCtrl t.name ∉ (reach st0 acts).st.running := by
-  have := trace_order st0 acts hn t _ k ht hp
+  have := trace_order st0 hw acts hn t _ k ht hp
   rw [hc] at this
   simp only [safeReq, noneOf, bne_self_eq_false, Bool.false_or, Bool.and_eq_true, List.all_eq_true,
     Bool.not_eq_true'] at this
   refine ⟨fun o ho => by simpa using this.1 o ho, ?_⟩
   simpa using this.2
 
-theorem trace_crd_after_instances_and_stop_offered (st0 : St) (acts : List Act) (hn : NoCreate acts) (t : Thread) (crd : String) (fg : Bool) (k : Resp → P)
+theorem trace_crd_after_instances_and_stop_offered (st0 : St) (hw : WF st0) (acts : List Act) (hn : NoCreate acts) (t : Thread) (crd : String) (fg : Bool) (k : Resp → P)
     (ht : t ∈ (reach st0 acts).ths) (hc : t.ctl = .offered)
     (hp : t.prog = .call (.delete ⟨.crd, crd⟩ fg) k) :
     (∀ o ∈ (reach st0 acts).st.objs, o.key.kind ≠ .claim) ∧ claimCtrl t.name ∉ (reach st0 acts).st.running := by
-  have := trace_order st0 acts hn t _ k ht hp
+  have := trace_order st0 hw acts hn t _ k ht hp
   rw [hc] at this
   simp only [safeReq, noneOf, bne_self_eq_false, Bool.false_or, Bool.and_eq_true, List.all_eq_true,
     Bool.not_eq_true'] at this
@@ -173,11 +197,11 @@ theorem trace_crd_after_instances_and_stop_offered (st0 : St) (acts : List Act) 
 /-- When the definition reconcile is about to stop the composite controller while the
 XRD still exists, either the CRD is gone or not controlled by the XRD ("never ours"), or
 no XR exists. -/
-theorem trace_stop_after_instances (st0 : St) (acts : List Act) (hn : NoCreate acts) (t : Thread) (ctl : String) (k : Resp → P)
+theorem trace_stop_after_instances (st0 : St) (hw : WF st0) (acts : List Act) (hn : NoCreate acts) (t : Thread) (ctl : String) (k : Resp → P)
     (ht : t ∈ (reach st0 acts).ths) (hc : t.ctl = .defined) (hp : t.prog = .call (.stop ctl) k)
     (d : Obj) (hd : find (reach st0 acts).st ⟨.xrd, t.name⟩ = some d) :
     crdNotOurs (reach st0 acts).st d.ref d.uid = true ∨ ∀ o ∈ (reach st0 acts).st.objs, o.key.kind ≠ .xr := by
-  have := trace_order st0 acts hn t _ k ht hp
+  have := trace_order st0 hw acts hn t _ k ht hp
   rw [hc] at this
   simp only [safeReq, hd, Bool.or_eq_true] at this
   rcases this with h | h
@@ -186,11 +210,11 @@ theorem trace_stop_after_instances (st0 : St) (acts : List Act) (hn : NoCreate a
     simp only [noneOf, List.all_eq_true] at h
     exact fun o ho => by simpa using h o ho
 
-theorem trace_stop_after_instances_offered (st0 : St) (acts : List Act) (hn : NoCreate acts) (t : Thread) (ctl : String) (k : Resp → P)
+theorem trace_stop_after_instances_offered (st0 : St) (hw : WF st0) (acts : List Act) (hn : NoCreate acts) (t : Thread) (ctl : String) (k : Resp → P)
     (ht : t ∈ (reach st0 acts).ths) (hc : t.ctl = .offered) (hp : t.prog = .call (.stop ctl) k)
     (d : Obj) (hd : find (reach st0 acts).st ⟨.xrd, t.name⟩ = some d) :
     crdNotOurs (reach st0 acts).st d.of d.uid = true ∨ ∀ o ∈ (reach st0 acts).st.objs, o.key.kind ≠ .claim := by
-  have := trace_order st0 acts hn t _ k ht hp
+  have := trace_order st0 hw acts hn t _ k ht hp
   rw [hc] at this
   simp only [safeReq, hd, Bool.or_eq_true] at this
   rcases this with h | h
@@ -201,46 +225,47 @@ theorem trace_stop_after_instances_offered (st0 : St) (acts : List Act) (hn : No
 
 /-- When an XRD finalizer is about to be removed, the corresponding CRD is gone or not
 controlled by the stored XRD. -/
-theorem trace_xrd_fin_after_crd (st0 : St) (acts : List Act) (hn : NoCreate acts) (t : Thread) (kk : Key) (rv : Nat) (k : Resp → P)
+theorem trace_xrd_fin_after_crd (st0 : St) (hw : WF st0) (acts : List Act) (hn : NoCreate acts) (t : Thread) (kk : Key) (rv : Nat) (k : Resp → P)
     (ht : t ∈ (reach st0 acts).ths) (hc : t.ctl = .defined)
     (hp : t.prog = .call (.removeFin kk rv c08DefinedFinalizer) k)
     (d : Obj) (hd : find (reach st0 acts).st kk = some d) :
     crdNotOurs (reach st0 acts).st d.ref d.uid = true := by
-  have := trace_order st0 acts hn t _ k ht hp
+  have := trace_order st0 hw acts hn t _ k ht hp
   rw [hc] at this
   simpa [safeReq, hd] using this
 
-theorem trace_xrd_fin_after_crd_offered (st0 : St) (acts : List Act) (hn : NoCreate acts) (t : Thread) (kk : Key) (rv : Nat) (k : Resp → P)
+theorem trace_xrd_fin_after_crd_offered (st0 : St) (hw : WF st0) (acts : List Act) (hn : NoCreate acts) (t : Thread) (kk : Key) (rv : Nat) (k : Resp → P)
     (ht : t ∈ (reach st0 acts).ths) (hc : t.ctl = .offered)
     (hp : t.prog = .call (.removeFin kk rv c08OfferedFinalizer) k)
     (d : Obj) (hd : find (reach st0 acts).st kk = some d) :
     crdNotOurs (reach st0 acts).st d.of d.uid = true := by
-  have := trace_order st0 acts hn t _ k ht hp
+  have := trace_order st0 hw acts hn t _ k ht hp
   rw [hc] at this
   simpa [safeReq, hd] using this
 
 /-- When a revision's finalizer is about to be removed, the Lock (if any) does not list it. -/
-theorem trace_rev_lock_before_fin (st0 : St) (acts : List Act) (hn : NoCreate acts) (t : Thread) (kk : Key) (rv : Nat) (k : Resp → P)
+theorem trace_rev_lock_before_fin (st0 : St) (hw : WF st0) (acts : List Act) (hn : NoCreate acts) (t : Thread) (kk : Key) (rv : Nat) (k : Resp → P)
     (ht : t ∈ (reach st0 acts).ths) (hc : t.ctl = .rev)
     (hp : t.prog = .call (.removeFin kk rv c08RevisionFinalizer) k)
     (l : Obj) (hl : find (reach st0 acts).st lockKey = some l) : kk.name ∉ l.pkgs := by
-  have := trace_order st0 acts hn t _ k ht hp
+  have := trace_order st0 hw acts hn t _ k ht hp
   rw [hc] at this
   simpa [safeReq, hl] using this
 
 /-- When the finalizer of a composed Usage that names a using resource is about to be
-removed, that using resource is gone. -/
-theorem trace_usage_waits_using (st0 : St) (acts : List Act) (hn : NoCreate acts) (t : Thread) (kk : Key) (rv : Nat) (k : Resp → P)
+removed and the removal will be applied, that using resource (of the API group and kind
+the stored Usage names) is gone. -/
+theorem trace_usage_waits_using (st0 : St) (hw : WF st0) (acts : List Act) (hn : NoCreate acts) (t : Thread) (kk : Key) (rv : Nat) (k : Resp → P)
     (ht : t ∈ (reach st0 acts).ths) (hc : t.ctl = .usage)
     (hp : t.prog = .call (.removeFin kk rv c08UsageFinalizer) k)
-    (u : Obj) (hu : find (reach st0 acts).st kk = some u) (hf : u.flag = true) (hr : u.ref ≠ "") :
-    find (reach st0 acts).st ⟨.res, u.ref⟩ = none := by
-  have := trace_order st0 acts hn t _ k ht hp
+    (u : Obj) (hu : find (reach st0 acts).st kk = some u) (hrv : u.rv = rv) (hf : u.flag = true) (hr : u.ref ≠ "") :
+    find (reach st0 acts).st ⟨u.refKind, u.ref⟩ = none := by
+  have := trace_order st0 hw acts hn t _ k ht hp
   rw [hc] at this
   simp only [safeReq, hu, present, hf] at this
-  cases hfd : find (reach st0 acts).st ⟨.res, u.ref⟩ with
+  cases hfd : find (reach st0 acts).st ⟨u.refKind, u.ref⟩ with
   | none => rfl
-  | some o => simp [hfd, hr] at this
+  | some o => simp [hfd, hr, hrv] at this
 
 /-! ## the restriction to creation-free schedules is necessary -/
 
@@ -260,6 +285,53 @@ theorem trace_stop_after_instances_fails_with_recreation_witness :
 example :
     (reach raceWorld [.spawn .defined "xs.example.org", .step 0 .ok, .step 0 .ok, .step 0 .ok, .step 0 .ok, .step 0 .ok]).violatesAt 0 = false ∧
     (reach raceWorld [.spawn .defined "xs.example.org", .step 0 .ok, .step 0 .ok, .step 0 .ok, .step 0 .ok, .step 0 .ok, .step 0 .ok]).violatesAt 0 = false := by decide
+
+/-- The same restriction is what makes lagging caches harmless: a cache that is OLDER than
+the creation of an object ("the informer has not seen the XR yet") answers NotFound for an
+object that exists. Here the XR is created (step 0), the claim reconcile reads the claim
+and then reads the XR from the cache as it was before step 0: it goes on to remove the
+claim's finalizer although the XR exists and is not being deleted (reproduced on the real
+claim reconciler: corpus/C08/cache-miss.jsonl, recorded finding
+C08:claim-finalized-xr-missing-from-cache). Without the creation step — whatever the lag —
+`trace_order` applies. -/
+theorem trace_claim_fin_fails_with_cache_miss_witness :
+    (reach missWorld [.create { mk ⟨.xr, "x"⟩ 9 [c08XRFinalizer] false with ref := "ns/c" },
+      .spawn .claim "ns/c", .step 0 .ok, .lagStep 0 0]).violatesAt 0 = true := by decide
+
+/-- with a fresh read at the same point the reconcile deletes the XR first -/
+example :
+    (reach missWorld [.create { mk ⟨.xr, "x"⟩ 9 [c08XRFinalizer] false with ref := "ns/c" },
+      .spawn .claim "ns/c", .step 0 .ok, .step 0 .ok]).violatesAt 0 = false := by decide
+
+/-- the hypothesis `WF` holds of the example worlds (and of every store the harness builds:
+object i carries resourceVersion i+1, the next one is n+1) -/
+example : WF raceWorld ∧ WF (claimWorld true) ∧ WF xrdWorld ∧ WF revWorld ∧ WF usageWorld ∧ WF missWorld := by
+  refine ⟨?_, ?_, ?_, ?_, ?_, ?_⟩ <;> (intro o ho; revert o ho; decide)
+
+/-! ## third-party edits and lagging reads -/
+
+/-- Background claim: the reconcile read the claim, read the XR, had Delete(XR)
+acknowledged; then a third party switches the claim to Foreground. The pending finalizer
+removal carries the old resourceVersion: it is safe (it will not be applied), the API
+server answers Conflict and the claim keeps its finalizer while the XR exists. -/
+example : (let s := reach (claimWorld false) [.spawn .claim "ns/c", .step 0 .ok, .step 0 .ok, .step 0 .ok,
+      .edit ⟨.claim, "ns/c"⟩ .flip]
+    let s' := s.act (.step 0 .ok)
+    (s.violatesAt 0, (find s'.st ⟨.claim, "ns/c"⟩).map (fun c => (c.flag, c.fins)), (find s'.st ⟨.xr, "x"⟩).isSome)) =
+    (false, some (true, [c08ClaimFinalizer]), true) := by decide
+
+/-- a Usage reconcile that reads its using resource from a cache lagging behind the
+resource's deletion waits once more (stale, but safe) -/
+example : (let s := reach usageWorld [.del ⟨.res, "using"⟩, .spawn .usage "u", .step 0 .ok, .lagStep 0 0]
+    ((find s.st ⟨.res, "using"⟩).isNone, (s.ths[0]?).map (fun t => match t.prog with | .ret r => r == .requeue | _ => false))) =
+    (true, some true) := by decide
+
+/-- the using resource is looked up under the API group and kind `spec.by` names: an object
+of another kind with the same name does not make the Usage wait, nor does its absence
+release a Usage whose own using resource exists -/
+example : (let w : St := { usageWorld with objs := usageWorld.objs ++ [mk ⟨.res2, "using"⟩ 7 [] false], nextRv := 8 }
+    let s := reach w [.del ⟨.res2, "using"⟩, .spawn .usage "u", .step 0 .ok, .step 0 .ok]
+    (s.ths[0]?).map (fun t => match t.prog with | .ret r => r == .requeue | _ => false)) = some true := by decide
 
 /-! ## non-vacuity: the guarded writes do happen -/
 
